@@ -191,11 +191,11 @@ def run():
     chk.corr("function-level no_change: EXHAUSTIVE over all sequences of the alphabet up to the length bound x n x tolerances x python/numpy floats", n, dis,
              {("fn", "exhaustive", str(cfg))}, [cfg])
     chk.monitor("documented rule (exact rationals) vs no_change on the same enumeration", n, fails)
-    fl2 = chk.stage('function-level random', random_long, r, 1500 if quick else 20000)
+    fl2 = chk.stage('function-level random', random_long, r, C.T(1500, 20000))
     n2, dis2, fails2 = fl2 if fl2 else (0, [], [])
     chk.corr("function-level no_change: random longer sequences (length <= 60, values k/8)", n2, dis2, {("fn", "random-long")})
     chk.monitor("documented rule vs no_change on random longer sequences", n2, fails2)
-    specs = scenarios(r, 100 if quick else 1000)
+    specs = scenarios(r, C.T(100, 1000))
     fl = D.run_specs(chk, "driver-level stop step under early_stopping vs search.py/_stop_run.py", specs, monitor)
     chk.monitor("C13 stop step on the real runs (scripted dyadic sequences, python and numpy scores, repeated calls)", len(specs), fl)
     chk.exhaustive = True
